@@ -3,6 +3,7 @@ import Driver.LbSpec
 import Driver.Adapter
 import Driver.Closed
 import Driver.Stream
+import Driver.Race
 import Netpoll.Gen.Consts
 def main (args : List String) : IO UInt32 := do
   match args with
@@ -10,5 +11,6 @@ def main (args : List String) : IO UInt32 := do
   | ["lbspec", ops, impl] => Driver.LbSpec.main ops impl; return 0
   | ["stream"] => Driver.Stream.main; return 0
   | ["closed"] => Driver.Closed.main; return 0
+  | ["race"] => Driver.Race.main; return 0
   | ["adapter"] => Driver.Adapter.main Netpoll.Gen.c_block4k; return 0
   | _ => IO.eprintln "usage: npdriver lb | lbspec <ops> <impl> | adapter"; return 2
